@@ -44,7 +44,8 @@ def _bounds(tier):
     return {"alphabet": len(names), "letters": names, "core": core[:kc], "pair_cover": "de Bruijn B(%d,2)" % len(names),
             "triple_cover": "de Bruijn B(%d,3)" % kc, "trie_depth": 2, "trie_letters": kc,
             "preemptions": 1 if tier == "quick" else 2, "numba_threads": [1, 16] if tier == "quick" else [1, 2, 16],
-            "dask": ["synchronous", "threads:1", "threads:4", "threads:16"]}
+            "dask": ["synchronous", "threads:1", "threads:4", "threads:16"],
+            "hash_seeds": [0, 1, 2] if tier == "quick" else [0, 1, 2, 3, 4, 5, 6]}
 
 
 BOUNDS = {"quick": _bounds("quick"), "thorough": _bounds("thorough")}
@@ -188,30 +189,33 @@ class ThreadGrid(Space):
         self.tier = tier
         allnames, _ = letter_names(tier)
         want = ["proximity_dask_md1.5", "apply_3x5_range", "mean_default", "hotspots_3x3", "hotspots_3x5_dask", "stats_dask",
-                "crosstab_dask", "slope_dask", "slope_i4", "perlin_s5", "focal_stats_default", "stats_default", "proximity"]
+                "crosstab_dask", "slope_dask", "slope_i4", "perlin_s5", "focal_stats_default", "focal_stats_dup_names", "stats_default",
+                "crosstab", "polygonize_int", "local_combine", "proximity"]
         self.sub = [n for n in want if n in allnames]
-        self.cfg = [(nt, ds) for nt in BOUNDS[tier]["numba_threads"] for ds in BOUNDS[tier]["dask"]]
-        self.name = "numba_threads_x_dask_scheduler_grid"
+        self.cfg = [(nt, ds, 0) for nt in BOUNDS[tier]["numba_threads"] for ds in BOUNDS[tier]["dask"]]
+        # interpreter hash randomisation is part of the environment too: results must not depend on PYTHONHASHSEED
+        self.cfg += [(16, "synchronous", hs) for hs in ((1, 2) if tier == "quick" else (1, 2, 3, 4, 5, 6))]
+        self.name = "numba_threads_x_dask_scheduler_x_hashseed_grid"
         self.size = len(self.cfg)
         self.grain = 1
         self.weight = 20.0
 
     def describe(self, rank):
-        return {"NUMBA_NUM_THREADS": self.cfg[rank][0], "dask": self.cfg[rank][1], "letters": self.sub}
+        return {"NUMBA_NUM_THREADS": self.cfg[rank][0], "dask": self.cfg[rank][1], "PYTHONHASHSEED": self.cfg[rank][2], "letters": self.sub}
 
     def run(self, lo, hi, out):
         from ..history import fresh
         for rank in range(lo, hi):
-            nt, ds = self.cfg[rank]
-            res = fresh.compute_many(self.tier, self.sub, {"NUMBA_NUM_THREADS": str(nt), "XRMC_DASK": ds})
+            nt, ds, hs = self.cfg[rank]
+            res = fresh.compute_many(self.tier, self.sub, {"NUMBA_NUM_THREADS": str(nt), "XRMC_DASK": ds, "PYTHONHASHSEED": str(hs)})
             for r in res:
                 ref = _fresh(self.tier, r["letter"])
                 out.case(outcome=(r["letter"], nt, ds, r["digest"]), nontrivial=True, calls=2)
                 out.ok()
                 if r["digest"] != ref["digest"] or r["digest_repeat"] != ref["digest"]:
-                    out.violation(rank, "c11|threads|%s|numba=%d|dask=%s" % (r["letter"], nt, ds),
-                                  "%s differs from its fresh single-threaded result under NUMBA_NUM_THREADS=%d, dask %s"
-                                  % (r["letter"], nt, ds), case=self.describe(rank))
+                    out.violation(rank, "c11|env|%s|numba=%d|dask=%s|hashseed=%d" % (r["letter"], nt, ds, hs),
+                                  "%s differs from its fresh result under NUMBA_NUM_THREADS=%d, dask %s, PYTHONHASHSEED=%d"
+                                  % (r["letter"], nt, ds, hs), case=self.describe(rank))
 
 
 # ------------------------------------------------------------------------------------------------
